@@ -394,6 +394,9 @@ pub struct Script {
     pub v4_flags: Option<u8>,
     /// every second IPv4 packet of the connection carries a 4-byte IP option (Router Alert)
     pub v4_opt_alt: bool,
+    /// link-layer trailer on Ethernet frames: 1 = frames shorter than 60 octets are zero-padded to
+    /// the Ethernet minimum, 2 = that padding plus four trailer octets (a captured FCS) on every frame
+    pub eth_trailer: u8,
     pkt_no: std::cell::Cell<u64>,
 }
 
@@ -412,6 +415,7 @@ impl Script {
             vary_ip: std::cell::Cell::new(0),
             v4_flags: None,
             v4_opt_alt: false,
+            eth_trailer: 0,
             pkt_no: std::cell::Cell::new(0),
         }
     }
@@ -449,7 +453,16 @@ impl Script {
             payload: payload.to_vec(),
             ..Default::default()
         };
-        build(self.link, &ip, &tcp)
+        let mut f = build(self.link, &ip, &tcp);
+        if self.eth_trailer > 0 && matches!(self.link, Link::Ethernet | Link::EthernetMac(..)) {
+            if f.len() < 60 {
+                f.resize(60, 0);
+            }
+            if self.eth_trailer > 1 {
+                f.extend_from_slice(&[0xde, 0xad, (no & 0xff) as u8, 0xef]);
+            }
+        }
+        f
     }
     pub fn syn(&mut self, options: Vec<u8>) -> &mut Self {
         let f = self.seg(true, self.c_isn, 0, flags::SYN, options, &[]);
